@@ -57,8 +57,8 @@ CheckInput(e, i) ==
           [] e.kind = "json-search" -> {"jsonSearch"}
           [] e.kind = "json-list" -> {"jsonList"}
           [] e.kind = "proto" -> {"fromProto"}
-  IN /\ (i + e.nops > Len(Trace) \/ \E k \in 1..e.nops : Trace[i + k].ev # "op"
-           => Reject(i, "protocol:group", [expected |-> expected]))
+  IN /\ ((i + e.nops > Len(Trace) \/ (\E k \in 1..e.nops : i + k <= Len(Trace) /\ Trace[i + k].ev # "op"))
+           => Reject(i, "protocol:group", [kind |-> e.kind, nops |-> e.nops]))
      /\ (i + e.nops <= Len(Trace) /\ (\A k \in 1..e.nops : Trace[i + k].ev = "op") =>
            /\ (e.kind = "query" /\ (e.nops = 0 \/ ops[1].op # "parse") => Reject(i, "protocol:parse-first", [expected |-> expected]))
            /\ (~fatal /\ names # expected => Reject(i, "protocol:incomplete", [expected |-> expected, missing |-> expected \ names, extra |-> names \ expected]))
